@@ -23,6 +23,8 @@ import Nq.Lemmas.SelPrep
 import Nq.Lemmas.SelQueued
 import Nq.Lemmas.SchedHeap
 import Nq.Gen.SendLoop
+import Nq.Lemmas.SelFds
+import Nq.TriggerRelaxed
 
 namespace Nq.Props.C16
 open Nq Nq.Trigger
@@ -232,7 +234,8 @@ NULL only after it has returned every entry the stream covers": `closedir` needs
 the model that the invariant rests on; its support is the trace replay — every enumerated interleaving of the real
 programs must be accepted by `Trigger.accept` (driver: DISAGREE on a rejected event).  It additionally assumes that
 readdir does not skip entries while the daemon itself unlinks todo/ entries in the middle of the scan (true of
-harness/sim.c, which is the only file system it is exercised on). -/
+harness/sim.c, which is the only file system it is exercised on).  That it cannot be more than a guard is proved:
+with this guard alone removed a lost wake-up is reachable (`C16_guards_necessary`, `endEarly`). -/
 theorem C16_scan_complete (s s' : St) (h : accept s .dEnd = some s') : s.d = .scanning [] := by
   simp only [accept] at h
   split at h
@@ -246,7 +249,10 @@ theorem C16_scan_complete (s s' : St) (h : accept s .dEnd = some s') : s.d = .sc
 `opendir` is accepted only right after the FIFO was reopened (`trigger_set` precedes `opendir`); **order in the
 injector**: the trigger is opened only after the link.  These are the two ASSUMPTIONS about the programs the invariant
 rests on; they are validated by replaying every enumerated trace of the real programs through the acceptor (a program
-that swaps them produces a rejected event: DISAGREE, and the oracle then finds the lost wake-up). -/
+that swaps them produces a rejected event: DISAGREE, and the oracle then finds the lost wake-up).
+Session 4, precisely: the invariant does NOT need "opendir only right after trigger_set" (`C16_order_opendir_guard_removed`: it
+holds for every trace with that guard removed; the order matters for the no-spin half); it DOES need "link before pull" and "a
+re-arm is followed by a scan" (`C16_guards_necessary`: a lost wake-up is reachable with either removed). -/
 theorem C16_order (s s' : St) :
     (accept s .dOpendir = some s' → s.d = .reopened) ∧ (∀ n ok, accept s (.iOpen n ok) = some s' → s.pc n = .linked) := by
   constructor
@@ -256,6 +262,87 @@ theorem C16_order (s s' : St) :
   · intro n ok h; simp only [accept] at h; split at h
     · rename_i hg; exact hg.1
     · cases h
+
+/-! ### Which guards does the invariant rest on? (extension round, session 4; `Nq.TriggerRelaxed`) -/
+
+/-- **The daemon half of `C16_order` with the guard REMOVED.**  Over the traces of the acceptor in which `opendir(todo)` is
+accepted WITHOUT a preceding `trigger_set()` as well (`opendirAnywhere`; the language contains every trace of `accept`), the
+invariant still holds in every reachable state, hence no wake-up is lost: "trigger_set precedes opendir" is not an assumption
+the no-lost-wake-up theorem rests on.  What the program's order buys is the other half of the property (no busy loop: a scan
+that does not re-arm first leaves the FIFO readable); the half that matters for safety is "never AFTER" — see
+`C16_guards_necessary`, `skipScan`. -/
+theorem C16_order_opendir_guard_removed (evs : List Ev) (s : St)
+    (h : acceptAllX { opendirAnywhere := true } {} evs = some s) :
+    Inv s ∧ ∀ n, pulled (s.pc n) = true → n ∈ s.todo → s.d = .idle → s.buf = true := by
+  have step : ∀ (s0 s1 : St) (e : Ev), Inv s0 → acceptX { opendirAnywhere := true } s0 e = some s1 → Inv s1 := by
+    intro s0 s1 e h0 ha
+    simp only [acceptX] at ha
+    cases h1 : accept s0 e with
+    | some s2 => simp only [h1, Option.some.injEq] at ha; subst ha; exact step_inv s0 s2 e h0 h1
+    | none =>
+      simp only [h1] at ha
+      cases e <;> simp [extra] at ha
+      case dOpendir =>
+        obtain ⟨hd, hs⟩ := ha
+        subst hs
+        refine ⟨?_, ?_, h0.nodup⟩
+        · intro n _ hm
+          exact Or.inr (Or.inr (Or.inr ⟨s0.todo, rfl, hm⟩))
+        · have := h0.open_iff
+          simp only [hd] at this
+          simp [this]
+      case dEnd =>
+        split at ha <;> simp at ha
+  have key : ∀ (evs : List Ev) (s0 s1 : St), Inv s0 → acceptAllX { opendirAnywhere := true } s0 evs = some s1 → Inv s1 := by
+    intro evs
+    induction evs with
+    | nil => intro s0 s1 h0 ha; simp [acceptAllX] at ha; subst ha; exact h0
+    | cons e es ih =>
+      intro s0 s1 h0 ha
+      simp only [acceptAllX] at ha
+      cases h1 : acceptX { opendirAnywhere := true } s0 e with
+      | none => simp [h1] at ha
+      | some s2 => simp [h1] at ha; exact ih s2 s1 (step s0 s2 e h0 h1) ha
+  have hi := key evs {} s inv_init h
+  refine ⟨hi, ?_⟩
+  intro n hp hm hd
+  rcases hi.cov n hp hm with h1 | h1 | h1 | ⟨r, h1, _⟩
+  · exact h1
+  · rw [hd] at h1; cases h1
+  · rw [hd] at h1; cases h1
+  · rw [hd] at h1; cases h1
+
+/-- **The other guards cannot be more than guards**: with any ONE of them removed a lost wake-up (`Trigger.lost`: daemon
+outside a scan, injection 5 complete and unprocessed, FIFO not readable) is reachable — so they are not consequences of
+anything else in the model; they are assumptions about the programs (order of the calls in qmail-queue.c `main` and
+qmail-send.c `todo_do`) and about the file system (readdir), and their only possible support is the replay of the real
+programs' traces through `Trigger.accept` (DISAGREE on a rejected event).
+* `pullBeforeLink` (injector half of `C16_order` removed): the injector pulls, the daemon re-arms and scans an empty todo,
+  then the injector links;
+* `skipScan` ("trigger_set … never after": re-arm not followed by a scan — `todo_do` re-arming after its scan): the entry is
+  linked and the pull lands during the scan that does not see it, then the re-arm clears the FIFO;
+* `endEarly` (`C16_scan_complete` removed): injection while the daemon is between close and reopen (ENXIO), the scan covers the
+  entry but readdir returns NULL first. -/
+theorem C16_guards_necessary :
+    (∃ evs, (acceptAllX { pullBeforeLink := true } {} evs).any (fun s => lost s 5) = true)
+    ∧ (∃ evs, (acceptAllX { skipScan := true } {} evs).any (fun s => lost s 5) = true)
+    ∧ (∃ evs, (acceptAllX { endEarly := true } {} evs).any (fun s => lost s 5) = true) := by
+  refine ⟨⟨[.dOpen, .dClose, .dOpen, .dOpendir, .dEnd, .iOpen 5 true, .iWrite 5 true, .iClose 5,
+            .dClose, .dOpen, .dOpendir, .dEnd, .iLink 5], by decide⟩,
+          ⟨[.dOpen, .dClose, .dOpen, .dOpendir, .iLink 5, .iOpen 5 true, .iWrite 5 true, .iClose 5, .dEnd,
+            .dClose, .dOpen, .dEnd], by decide⟩,
+          ⟨[.dOpen, .dClose, .iLink 5, .iOpen 5 false, .dOpen, .dOpendir, .dEnd], by decide⟩⟩
+
+/-- none of these traces is accepted by the real acceptor (the guards are what rejects them), and without relaxation the
+relaxed acceptor is the real one -/
+example : acceptAll {} [.dOpen, .dClose, .dOpen, .dOpendir, .dEnd, .iOpen 5 true] = none := by decide
+example : acceptAll {} [.dOpen, .dClose, .dOpen, .dOpendir, .iLink 5, .iOpen 5 true, .iWrite 5 true, .iClose 5, .dEnd, .dClose, .dOpen, .dEnd] = none := by decide
+example : acceptAll {} [.dOpen, .dClose, .iLink 5, .iOpen 5 false, .dOpen, .dOpendir, .dEnd] = none := by decide
+/-- `C16_order_opendir_guard_removed` is not vacuous: a scan without a re-arm is in the relaxed language (and not in the real
+one); the pull that arrived stays visible -/
+example : (acceptAllX { opendirAnywhere := true } {} [.dOpen, .dClose, .dOpen, .dOpendir, .dEnd, .iLink 5, .iOpen 5 true, .iWrite 5 true, .iClose 5,
+            .dOpendir, .dRead 5, .dEnd]).map (fun s => (s.buf, s.todo)) = some (true, []) := by decide
+example : acceptAll {} [.dOpen, .dClose, .dOpen, .dOpendir, .dEnd, .dOpendir] = none := by decide
 
 /-! ### Bounded-steps liveness of the trigger protocol -/
 
@@ -787,5 +874,121 @@ example : (acceptAll {} [.iLink 5, .iOpen 5 false, .dOpen, .dClose, .dOpen, .dOp
 -- ... and from the start-up state `.reopened` there is no way to `idle` that skips the scan: closedir is rejected
 example : (acceptAll {} [.iLink 5, .iOpen 5 false, .dOpen]).bind (fun s => accept s .dEnd) = none := by decide
 
+
+/-! ### Descriptor numbers and `nfds` (extension round, session 4) -/
+
+open Nq.SelPrep Nq.SelFds in
+/-- **`nfds` covers the sets exactly.**  For every snapshot and every assignment of descriptor numbers: `nfds ≥ 1`; every
+descriptor that comm_selprep / del_selprep / trigger_selprep `FD_SET` is `< nfds`, so `select` examines all of them
+(`watched` = the whole set); and `nfds` is tight: it is 1 (nothing above descriptor 0 set) or `max + 1` of what was set. -/
+theorem C16_nfds_covers (s : Snap) (f : FdNums) :
+    1 ≤ nfds s f ∧ (∀ fd, fd ∈ rset s f ++ wset s f → fd < nfds s f)
+    ∧ (nfds s f = 1 ∨ ∃ fd, fd ∈ rset s f ++ wset s f ∧ nfds s f = fd + 1)
+    ∧ watched (nfds s f) (rset s f) = rset s f ∧ watched (nfds s f) (wset s f) = wset s f := by
+  have hlt : ∀ fd, fd ∈ rset s f ++ wset s f → fd < nfds s f := by
+    intro fd h
+    rw [nfds_eq]
+    apply foldl_bump_gt
+    simp only [List.mem_append] at h ⊢
+    exact h.symm
+  refine ⟨by rw [nfds_eq]; exact foldl_bump_ge _ 1, hlt, ?_, ?_, ?_⟩
+  · rcases foldl_bump_tight (wset s f ++ rset s f) 1 with h | ⟨x, hx, h⟩
+    · left; rw [nfds_eq]; exact h
+    · right
+      refine ⟨x, ?_, by rw [nfds_eq]; exact h⟩
+      simp only [List.mem_append] at hx ⊢
+      exact hx.symm
+  · simp only [watched, List.filter_eq_self]
+    intro fd h
+    exact decide_eq_true (hlt fd (List.mem_append_left _ h))
+  · simp only [watched, List.filter_eq_self]
+    intro fd h
+    exact decide_eq_true (hlt fd (List.mem_append_right _ h))
+
+open Nq.SelPrep Nq.SelFds in
+/-- **Every descriptor the daemon must wake up on is watched**: in the right set AND below `nfds` (`watched`).
+(a) the report pipe `chanfdin[i]` of every live spawner — in particular whenever deliveries are outstanding on a live spawner;
+(b) the command pipe `chanfdout[i]` of every live spawner with commands buffered; (c) the trigger FIFO while it is armed
+(open, exit not requested).  Complement (nothing else is watched, and the excluded cases — dead spawner, empty buffer, exit
+requested, FIFO not open — are NOT watched): `C16_wake_fds_exact`. -/
+theorem C16_wake_fds_watched (s : Snap) (f : FdNums) :
+    (∀ i c, s.chans[i]? = some c → c.spawnAlive = true → f.inn i ∈ watched (nfds s f) (rset s f))
+    ∧ (∀ i c, s.chans[i]? = some c → c.spawnAlive = true → c.commPending = true → f.out i ∈ watched (nfds s f) (wset s f))
+    ∧ (s.exitasap = false → s.triggerFd = true → f.trig ∈ watched (nfds s f) (rset s f)) := by
+  obtain ⟨_, _, _, hr, hw⟩ := C16_nfds_covers s f
+  rw [hr, hw, rset_eq_mustRead, wset_eq_mustWrite]
+  refine ⟨?_, ?_, ?_⟩
+  · intro i c hc ha
+    exact (mem_mustRead s f _).2 (Or.inl ⟨i, c, hc, ha, rfl⟩)
+  · intro i c hc ha hp
+    exact (mem_mustWrite s f _).2 ⟨i, c, hc, ha, hp, rfl⟩
+  · intro he ht
+    exact (mem_mustRead s f _).2 (Or.inr ⟨he, ht, rfl⟩)
+
+open Nq.SelPrep Nq.SelFds in
+/-- **… and nothing else** (complement of `C16_wake_fds_watched`): a number is in `rfds` only as the report pipe of a live
+spawner or as the armed trigger; in `wfds` only as the command pipe of a live spawner with buffered commands.  (Together with
+`C16_early_return_acts` — stated over the symbolic descriptors `SelPrep.Fd`, of which `rset`/`wset` are the images under
+`num` — no watched descriptor is one the loop body ignores.) -/
+theorem C16_wake_fds_exact (s : Snap) (f : FdNums) (fd : Nat) :
+    (fd ∈ rset s f ↔ (∃ i c, s.chans[i]? = some c ∧ c.spawnAlive = true ∧ fd = f.inn i)
+                      ∨ (s.exitasap = false ∧ s.triggerFd = true ∧ fd = f.trig))
+    ∧ (fd ∈ wset s f ↔ ∃ i c, s.chans[i]? = some c ∧ c.spawnAlive = true ∧ c.commPending = true ∧ fd = f.out i) := by
+  rw [rset_eq_mustRead, wset_eq_mustWrite]
+  exact ⟨mem_mustRead s f fd, mem_mustWrite s f fd⟩
+
+open Nq.SelPrep Nq.SelFds in
+/-- the driver's executable oracle `wakeOracle` says what `C16_wake_fds_watched` says (for arbitrary `nfds` and sets — it is
+evaluated on the implementation's), and it holds on the model -/
+theorem C16_wake_oracle (s : Snap) (f : FdNums) (nf : Nat) (rs ws : List Nat) :
+    (wakeOracle s f nf rs ws = none ↔
+      (∀ fd, fd ∈ mustRead s f → fd ∈ watched nf rs) ∧ (∀ fd, fd ∈ mustWrite s f → fd ∈ watched nf ws))
+    ∧ wakeOracle s f (nfds s f) (rset s f) (wset s f) = none := by
+  have key : ∀ nf rs ws, (wakeOracle s f nf rs ws = none ↔
+      (∀ fd, fd ∈ mustRead s f → fd ∈ watched nf rs) ∧ (∀ fd, fd ∈ mustWrite s f → fd ∈ watched nf ws)) := by
+    intro nf rs ws
+    simp only [wakeOracle, watched, List.mem_filter, decide_eq_true_eq]
+    cases h1 : (mustRead s f).find? (fun fd => !(rs.contains fd && decide (fd < nf))) with
+    | some fd =>
+      simp only [reduceCtorEq, false_iff, not_and]
+      intro hall
+      have hm := List.mem_of_find?_eq_some h1
+      have hp := List.find?_some h1
+      have := hall fd hm
+      simp [this.1, this.2] at hp
+    | none =>
+      cases h2 : (mustWrite s f).find? (fun fd => !(ws.contains fd && decide (fd < nf))) with
+      | some fd =>
+        simp only [reduceCtorEq, false_iff, not_and]
+        intro _ hall
+        have hm := List.mem_of_find?_eq_some h2
+        have hp := List.find?_some h2
+        have := hall fd hm
+        simp [this.1, this.2] at hp
+      | none =>
+        simp only [true_iff]
+        rw [List.find?_eq_none] at h1 h2
+        constructor
+        · intro fd hm; have := h1 fd hm; simpa using this
+        · intro fd hm; have := h2 fd hm; simpa using this
+  refine ⟨key nf rs ws, (key _ _ _).2 ?_⟩
+  obtain ⟨_, _, _, hr, hw⟩ := C16_nfds_covers s f
+  rw [hr, hw, rset_eq_mustRead, wset_eq_mustWrite]
+  exact ⟨fun _ h => h, fun _ h => h⟩
+
+/-- qmail-send's descriptor numbers: chanfdout = {1,3}, chanfdin = {2,4}; the FIFO was opened as descriptor 7 -/
+def exFds : Nq.SelFds.FdNums := { out := fun c => 2 * c + 1, inn := fun c => 2 * c + 2, trig := 7 }
+
+/-- idle daemon, both spawners alive, a command buffered for qmail-rspawn: rfds = {2,4,7}, wfds = {3}, nfds = 8 -/
+example : (fun s => (Nq.SelFds.rset s exFds, Nq.SelFds.wset s exFds, Nq.SelFds.nfds s exFds))
+    { recent := 10, chans := [{ conc := 5 }, { conc := 5, commPending := true }] } = ([2, 4, 7], [3], 8) := by decide
+/-- exit requested (FIFO no longer watched), qmail-rspawn dead, a delivery outstanding on qmail-lspawn: rfds = {2}, nfds = 3 -/
+example : (fun s => (Nq.SelFds.rset s exFds, Nq.SelFds.wset s exFds, Nq.SelFds.nfds s exFds))
+    { recent := 10, exitasap := true, chans := [{ conc := 5, used := 1 }, { conc := 5, spawnAlive := false, commPending := true }] } = ([2], [], 3) := by decide
+/-- nothing set at all: nfds stays 1 -/
+example : Nq.SelFds.nfds { recent := 10, exitasap := true, chans := [{ spawnAlive := false }, { spawnAlive := false }] } exFds = 1 := by decide
+/-- the oracle is not vacuous: with nfds one too small the trigger (7) is in the set but not examined by select -/
+example : Nq.SelFds.wakeOracle { recent := 10, chans := [{ conc := 5 }, { conc := 5 }] } exFds 7 [2, 4, 7] [] ≠ none := by decide
+example : Nq.SelFds.wakeOracle { recent := 10, chans := [{ conc := 5 }, { conc := 5 }] } exFds 8 [2, 4, 7] [] = none := by decide
 
 end Nq.Props.C16
